@@ -1,0 +1,71 @@
+//go:build verif
+
+package xixi_kv
+
+import "github.com/XiXi-2024/xixi-kv/datafile"
+
+// VerifFsEvent, when set, is told about every directory-level operation
+// (mkdir, remove, rename, removeall) immediately before it is issued.
+var VerifFsEvent func(kind string, a string, b string)
+
+// VerifSched, when set, is called at the schedule points of Put, Delete and
+// Merge; it may block the calling goroutine.
+var VerifSched func(label string)
+
+func verifFsEvent(kind string, a string, b string) {
+	if VerifFsEvent != nil {
+		VerifFsEvent(kind, a, b)
+	}
+}
+
+func verifSched(label string) {
+	if VerifSched != nil {
+		VerifSched(label)
+	}
+}
+
+// VerifPos returns the live index entry of key (nil if absent).
+func (db *DB) VerifPos(key []byte) *datafile.DataPos {
+	return db.index.Get(key)
+}
+
+// VerifActiveFileID returns the id of the active file and the ids of the older files.
+func (db *DB) VerifFileIDs() (uint32, []uint32) {
+	db.mu.RLock()
+	defer db.mu.RUnlock()
+	var older []uint32
+	for id := range db.olderFiles {
+		older = append(older, id)
+	}
+	if db.activeFile == nil {
+		return 0, older
+	}
+	return db.activeFile.ID, older
+}
+
+// VerifCounters returns bytesWrite, totalSize, reclaimSize.
+func (db *DB) VerifCounters() (uint, int64, int64) {
+	db.mu.RLock()
+	defer db.mu.RUnlock()
+	return db.bytesWrite, db.totalSize, db.reclaimSize
+}
+
+// VerifActiveSize returns the logical size of the active file.
+func (db *DB) VerifActiveSize() int64 {
+	db.mu.RLock()
+	defer db.mu.RUnlock()
+	if db.activeFile == nil {
+		return 0
+	}
+	return db.activeFile.Size()
+}
+
+// VerifBatchID returns the id the batch tags its records with.
+func (b *Batch) VerifBatchID() uint64 {
+	return uint64(b.batchID)
+}
+
+// VerifMergePath returns the merge side directory of the database.
+func (db *DB) VerifMergePath() string {
+	return db.mergePath()
+}
